@@ -150,7 +150,7 @@ impl<const M: usize> Sim<M> {
             let cls = if size == 0 { "zst" } else if size <= cap_before { "le_cap" } else { "gt_cap" };
             let finger_res = self.last_obs.as_ref().and_then(|o| o.chunks.first().map(|c| c.0 % 16)).unwrap_or(99);
             rep.bump(&format!("path.{}.{}.{}", branch, what, cls));
-            rep.distinct.insert(crate::report::fnv(crate::report::fnv(0xFA57, branch.len() as u64 * 16 + what.len() as u64), crate::report::fnv(cls.len() as u64 * 64 + finger_res as u64, (align.trailing_zeros() as u64) << 8 | M as u64)));
+            rep.paths.insert(crate::report::fnv(crate::report::fnv(0xFA57, branch.len() as u64 * 16 + what.len() as u64), crate::report::fnv(cls.len() as u64 * 64 + finger_res as u64, (align.trailing_zeros() as u64) << 8 | M as u64)));
         }
         let out = match r {
             Ok(Some(p)) => {
